@@ -130,6 +130,20 @@ def validate_request(request, json_config):
 
     # Get the request ID
     rpcid = request.get("id", None)
+    try:
+        # The ID is echoed in the response: it must be a JSON value
+        # (the class translator can turn it into an arbitrary object)
+        jsonrpclib.jdumps(rpcid)
+    except Exception:
+        fault = Fault(
+            -32600,
+            "Request ID of type {0} can't be echoed.".format(
+                type(rpcid).__name__
+            ),
+            config=json_config,
+        )
+        _logger.warning("Invalid request ID: %s", fault)
+        return fault
 
     # Check request version
     version = get_version(request)
